@@ -54,13 +54,18 @@ def fix_plan(case):
 
 def run_case(case, acc, wd, second_run=True):
     r = e2e.run_ddsmt(wd, case['text'], case['spec'], case['opts'], mode='launcher',
-                      plan=dict(fixpoint=fix_plan(case)), spec_cc=case.get('spec_cc'))
+                      plan=dict(fixpoint=fix_plan(case), stop_on_repeat=True, max_accepts=400),
+                      spec_cc=case.get('spec_cc'), wall_limit=120)
     classes = [f'strategy-{case["opts"]["strategy"]}', f'jobs-{case["opts"]["jobs"]}',
                f'mode-{case["mode"]}', 'mutators-' + ('all' if not case['opts'].get('extra_argv') else 'subset')]
     if r.timed_out or r.after is None:
         acc.skip('run-wall-limit-or-crash')
         acc.inconclusive.append(dict(why='wall limit or launcher crash', timed_out=r.timed_out,
                                      stderr=r.stderr[-600:], case=case))
+        return False, classes, r
+    if r.after.get('repeat') or r.after.get('too_many_accepts'):
+        # a cycle: C03's finding, not C02's (the run never terminates normally)
+        acc.skip('cycle-in-run(see C03)')
         return False, classes, r
     if r.after.get('rc') != 0:
         classes.append('run-failed')
@@ -93,7 +98,7 @@ def run_case(case, acc, wd, second_run=True):
         o2.pop('pretty_print', None)
         o2.pop('wrap_lines', None)
         r2 = e2e.run_ddsmt(wd + '-second', r.out_text, case['spec'], o2, mode='blackbox',
-                           spec_cc=case.get('spec_cc'))
+                           spec_cc=case.get('spec_cc'), wall_limit=120)
         classes.append('second-run')
         if r2.timed_out:
             acc.skip('second-run-wall-limit')
